@@ -75,25 +75,38 @@ def shorten(obj, budget=1800):
 class Recorder:
     """Counts what one sub-check (or one shard of it) actually explored."""
 
+    def n_nontrivial(self):
+        return len(self.nontrivial) + sum(self.units.values())
+
     MAX_SAMPLES = 3
 
     def __init__(self):
         self.evaluations = 0
+        self.cases = 0
         self.nontrivial = set()
         self.classes = collections.Counter()
         self.discards = collections.Counter()
         self.samples = []
         self.nt_samples = []
         self.exhaustive = None
+        self.units = {}            # case digest -> (evaluations, non-trivial) of multi-unit cases
 
     def record(self, case, info):
         """info: dict(nontrivial=bool, classes=[str], sample=optional summary).
         (evaluations are counted by the runner when the oracle starts, so failing
         executions count too.)"""
         info = info or {}
+        self.cases += 1
         for c in info.get("classes", ()):
             self.classes[c] += 1
         nt = bool(info.get("nontrivial"))
+        if "units" in info:        # one case = many (input, fault) pairs, all distinct inside the case
+            n_units, n_nt = info["units"]
+            self.evaluations += max(0, int(n_units) - 1)
+            self.units[digest(case)] = int(n_nt)
+            nt = False
+            if n_nt:
+                self.classes["nontrivial"] += 1
         if nt:
             self.classes["nontrivial"] += 1
             self.nontrivial.add(digest(case))
@@ -106,12 +119,12 @@ class Recorder:
         self.discards[reason] += 1
 
     def dump(self):
-        return {"evaluations": self.evaluations,
+        return {"evaluations": self.evaluations, "cases": self.cases,
                 "nontrivial": sorted(self.nontrivial),
                 "classes": dict(self.classes),
                 "discards": dict(self.discards),
                 "samples": self.samples, "nt_samples": self.nt_samples,
-                "exhaustive": self.exhaustive}
+                "exhaustive": self.exhaustive, "units": self.units}
 
     @staticmethod
     def merge(dumps):
@@ -119,9 +132,11 @@ class Recorder:
         exh = []
         for d in dumps:
             out.evaluations += d["evaluations"]
+            out.cases += d.get("cases", 0)
             out.nontrivial.update(d["nontrivial"])
             out.classes.update(d["classes"])
             out.discards.update(d["discards"])
+            out.units.update(d.get("units", {}))
             for s in d["samples"]:
                 if len(out.samples) < Recorder.MAX_SAMPLES:
                     out.samples.append(s)
